@@ -271,10 +271,9 @@ def tokOfSlice (f : Bytes → Tok) : Option Bytes → Tok
   | some b => f b
   | none => Tok.goPanic
 
-/-- `(*Lexer).NextToken` after the call of `skipWhitespace` -/
-def nextCore (s1 : State) : Tok × State :=
-  let (ch, s) := s1.readChar
-  let nextChar := s.peekChar
+/-- the `switch ch` of `(*Lexer).NextToken`: `ch` is the byte just read, `nextChar` the byte
+under the position of `s` -/
+def nextSwitch (ch nextChar : UInt8) (s : State) : Tok × State :=
   let adv : State := { s with pos := s.pos + 1 }
   if ch == #b'=' || ch == #b'!' || ch == #b':' then
     if nextChar == #b'=' then (constantTokenChar2 ch nextChar, adv)
@@ -288,11 +287,11 @@ def nextCore (s1 : State) : Tok × State :=
     (constantTokenChar ch, s)
   else if ch == #b'/' then
     if nextChar == #b'/' then
-      let (lit, s) := readLineComment s
-      (tokOfSlice (internTok LINECOMMENT) lit, s)
+      let r := readLineComment s
+      (tokOfSlice (internTok LINECOMMENT) r.1, r.2)
     else if nextChar == #b'*' then
-      let (lit, s) := readBlockComment s
-      (tokOfSlice (internTok BLOCKCOMMENT) lit, s)
+      let r := readBlockComment s
+      (tokOfSlice (internTok BLOCKCOMMENT) r.1, r.2)
     else (constantTokenChar ch, s)
   else if ch == #b'|' || ch == #b'&' then
     if nextChar == ch then (constantTokenChar2 ch nextChar, adv)
@@ -302,9 +301,9 @@ def nextCore (s1 : State) : Tok × State :=
     else if nextChar == #b'=' then (constantTokenChar2 ch nextChar, adv)
     else (constantTokenChar ch, s)
   else if ch == #b'"' || ch == #b'`' then
-    let (str, ok, s) := readString s ch
+    let r := readString s ch
     -- fix: `l.pos--`, stay on the terminating NUL / end of input
-    if !ok then (s.eolEof, { s with pos := s.pos - 1 }) else (internTok STRING str, s)
+    if !r.2.1 then (r.2.2.eolEof, { r.2.2 with pos := r.2.2.pos - 1 }) else (internTok STRING r.1, r.2.2)
   else if ch == 0 then
     -- fix: `l.pos--`, the end marker is not consumed
     (s.eolEof, { s with pos := s.pos - 1 })
@@ -312,16 +311,21 @@ def nextCore (s1 : State) : Tok × State :=
     if nextChar == #b'.' then (constantTokenChar2 ch nextChar, adv)
     else if !isDigit nextChar then (constantTokenChar ch, s)
     else
-      let (t, lit, s) := readNumber s ch
-      (tokOfSlice (internTok t) lit, s)
+      let r := readNumber s ch
+      (tokOfSlice (internTok r.1) r.2.1, r.2.2)
   else if isLetter ch then
-    let (lit, s) := readIdentifier s
-    (tokOfSlice lookupIdent lit, s)
+    let r := readIdentifier s
+    (tokOfSlice lookupIdent r.1, r.2)
   else if isDigit ch then
-    let (t, lit, s) := readNumber s ch
-    (tokOfSlice (internTok t) lit, s)
+    let r := readNumber s ch
+    (tokOfSlice (internTok r.1) r.2.1, r.2.2)
   else
     (internTok ILLEGAL (stringOfByte ch), s)
+
+/-- `(*Lexer).NextToken` after the call of `skipWhitespace`:
+`ch := l.readChar(); nextChar := l.peekChar(); switch ch {…}` -/
+def nextCore (s1 : State) : Tok × State :=
+  nextSwitch s1.readChar.1 s1.readChar.2.peekChar s1.readChar.2
 
 /-- `(*Lexer).NextToken` -/
 def next (s0 : State) : Tok × State := nextCore (skipWhitespace s0)
